@@ -148,7 +148,7 @@ def run(tier, seed):
     F = importlib.import_module("gffutils.feature")
     H = importlib.import_module("gffutils.helpers")
     known = {k["key"]: k for k in load_known(PROP) if k.get("status") == "known"}
-    symx.install(B, ("range",))
+    symx.install(B, ("range", "set"))
     try:
         sch = Scheme(B)
         s, e = _vars()
@@ -202,7 +202,7 @@ def run(tier, seed):
                     vcs.append(VC("O4/path%d: result is a set (got %s)" % (n, p.exc or _result_kind(p.result)), z3.Not(pc), [s, e]))
                     continue
                 okpaths.append(p)
-                res = list(p.result)
+                res = list(set.__iter__(p.result)) if isinstance(p.result, set) else list(p.result)
                 member = lambda x, res=res: symx.marker_members(x, res)
                 valid = z3.And(s <= e, sch.in_range(s, e, fmt))
                 for i in range(sch.L):
@@ -211,7 +211,7 @@ def run(tier, seed):
                 vcs.append(VC("O5/path%d" % n, z3.Implies(z3.And(pc, valid), sch.O5(member, s, e, fmt, b)), [s, e, b]))
                 vcs.append(VC("O6/path%d" % n,
                               z3.Implies(z3.And(pc, sch.out_of_range(s, e, fmt)), member(b) == (b == 1)), [s, e, b]))
-            all_sum = symx.ite_summary(okpaths, lambda p: symx.marker_members(b, list(p.result)), z3.BoolVal(False))
+            all_sum = symx.ite_summary(okpaths, lambda p: symx.marker_members(b, list(set.__iter__(p.result)) if isinstance(p.result, set) else list(p.result)), z3.BoolVal(False))
             summaries[(fmt, False)] = all_sum
             _decide(rep, c, vcs, B, fmt, False, sch, known, t0)
 
@@ -280,7 +280,7 @@ def run(tier, seed):
             if f.bin is not None or H._bin_from_dict({"start": ".", "end": "."}) is not None:
                 rep.violation("O8/none", dict(kind="c12", what="Feature('.', '.').bin is not None"), "bin for '.' coordinates is %r" % (f.bin,))
     finally:
-        symx.uninstall(B, ("range",))
+        symx.uninstall(B, ("range", "set"))
     return rep.finish()
 
 
@@ -348,7 +348,7 @@ def _classify(name, fmt, which, model, sch):
 def _decide(rep, c, vcs, B, fmt, which, sch, known, t0):
     """Discharges the VCs of one condition; replays counterexamples on the real function."""
     nvalid = 0
-    symx.uninstall(B, ("range",))  # concrete replays use the untouched module
+    symx.uninstall(B, ("range", "set"))  # concrete replays use the untouched module
     try:
         for vc in vcs:
             r = vc.decide()
@@ -375,7 +375,7 @@ def _decide(rep, c, vcs, B, fmt, which, sch, known, t0):
             c.cex = dict(kind="c12", fmt=fmt, which=which, vc=vc.name, model=vc.model)
             rep.violation(c.name + "/" + vc.name, dict(c.cex), txt)
     finally:
-        symx.install(B, ("range",))
+        symx.install(B, ("range", "set"))
     if c.outcome == "unexhausted" and not c.detail and nvalid == len(vcs):
         c.outcome = "confirmed"
     elif c.outcome == "unexhausted" and getattr(c, "known_hit", False) and "unknown" not in c.detail and "does not reproduce" not in c.detail:
